@@ -1,5 +1,6 @@
 import ElaVerif.Lemmas.Bloom
 import ElaVerif.Model.Murmur3
+import ElaVerif.Gen.C39
 /-!
 # C39 — bloom filters have no false negatives
 
@@ -159,5 +160,64 @@ theorem C39_bound_sharp (mm : Murmur) (f : Filter) (d : Bytes) (hlen : f.bits.le
   unfold matchesLoop
   have hh : Bloom.hash mm (2 ^ 29) f.tweak 0 d = none := by simp [Bloom.hash, hm]
   rw [hlen, hh]
+
+/-! ## filters as a peer can install them -/
+
+/-- Whatever bytes a peer sends as `filterload`: if `FilterLoad.Deserialize` accepts them, the
+    filter has at most 36000 bytes and at most 50 hash functions — so the size hypothesis of
+    every theorem above holds for every filter that can come from the network. -/
+theorem C39_load_len (b : Bytes) (f : Filter) (h : loadFilter b = some f) :
+    f.bits.length ≤ 36000 ∧ f.hashFuncs.toNat ≤ 50 ∧ f.bits.length < 2 ^ 29 := by
+  have := loadFilter_bounds b f h
+  simp only [maxFilterLoadFilterSize, maxFilterLoadHashFuncs] at this
+  exact ⟨this.1, this.2, by omega⟩
+
+example : loadFilter [2, 0xaa, 0x55, 3, 0, 0, 0, 7, 0, 0, 0, 1] = some ⟨[0xaa, 0x55], 3, 7, []⟩ := by decide
+/-- the state that used to crash the node is accepted by the decoder (empty filter, one hash function) -/
+example : loadFilter [0, 1, 0, 0, 0, 0, 0, 0, 0, 0] = some ⟨[], 1, 0, []⟩ := by decide
+
+/-- **Remote safety and completeness in one statement**: for every byte string a peer sends as
+    `filterload` that the decoder accepts, every sequence of `filteradd` data is processed without
+    a panic and every added element matches afterwards. -/
+theorem C39_peer_no_false_negative (mm : Murmur) (b : Bytes) (f : Filter) (ds : List Bytes)
+    (h : loadFilter b = some f) :
+    ∃ g, addAll mm f ds = some g ∧ ∀ d ∈ ds, «matches» mm g d = some true :=
+  C39_no_false_negative mm f ds (C39_load_len b f h).2.2
+
+/-- … and however the peer's filter then evolves (`filteradd`s, matched transactions), matching any
+    transaction against it never panics. -/
+theorem C39_peer_tx_total (mm : Murmur) (b : Bytes) (f g : Filter) (tx : Tx)
+    (h : loadFilter b = some f) (hev : Evolves mm f g) :
+    ∃ r g', matchTxAndUpdate mm g tx = some (r, g') := by
+  have hl := (C39_load_len b f h).2.2
+  have hg : g.bits.length < 2 ^ 29 := by rw [(hev.le hl).length]; exact hl
+  obtain ⟨r, g', hrun, _⟩ := matchTx_spec mm g tx hg
+  exact ⟨r, g', hrun⟩
+
+/-- T-gen: the limits of both copies of the constants are the model's; `hash`, the guards and the
+    loops of `matches`/`add` read as transcribed (the empty-filter guard is present in both);
+    the decoder reads var-bytes(36000), HashFuncs, Tweak, the 50 check, Flags, then the optional
+    TxTypes. -/
+theorem C39_gen_source :
+    Gen.C39.bloomMaxFilterLoadFilterSize = maxFilterLoadFilterSize ∧
+    Gen.C39.msgMaxFilterLoadFilterSize = maxFilterLoadFilterSize ∧
+    Gen.C39.bloomMaxFilterLoadHashFuncs = maxFilterLoadHashFuncs ∧
+    Gen.C39.msgMaxFilterLoadHashFuncs = maxFilterLoadHashFuncs ∧
+    Gen.C39.hashBody = ["mm := MurmurHash3(hashNum*0xfba4c795+bf.msg.Tweak, data)",
+                        "return mm % (uint32(len(bf.msg.Filter)) << 3)"] ∧
+    Gen.C39.matchesGuards = ["bf.msg == nil => return false", "len(bf.msg.Filter) == 0 => return true"] ∧
+    Gen.C39.addGuards = ["bf.msg == nil => return", "len(bf.msg.Filter) == 0 => return"] ∧
+    Gen.C39.matchesLoop = ["for i := uint32(0); i < bf.msg.HashFuncs; i++", "idx := bf.hash(i, data)",
+                           "if bf.msg.Filter[idx>>3]&(1<<(idx&7)) == 0 { return false }"] ∧
+    Gen.C39.addLoop = ["for i := uint32(0); i < bf.msg.HashFuncs; i++", "idx := bf.hash(i, data)",
+                       "bf.msg.Filter[idx>>3] |= (1 << (7 & idx))"] ∧
+    Gen.C39.murmurConsts = ["murmurC1 = 0xcc9e2d51", "murmurC2 = 0x1b873593", "murmurR1 = 15", "murmurR2 = 13",
+                            "murmurM = 5", "murmurN = 0xe6546b64"] ∧
+    Gen.C39.filterLoadDeserialize =
+      ["common.ReadVarBytes(r, MaxFilterLoadFilterSize, \"filterload filter size\")",
+       "common.ReadElements(r, &msg.HashFuncs, &msg.Tweak)", "if msg.HashFuncs > MaxFilterLoadHashFuncs",
+       "common.ReadElements(r, &msg.Flags)", "common.ReadVarUint(r, 0)", "if err == io.EOF",
+       "common.ReadElement(r, &txType)"] := by
+  decide
 
 end ElaVerif.C39
